@@ -2,7 +2,7 @@
 
 ENGINES = [
     dict(name='symx', path='/verif/symx',
-         serves_properties=['C01', 'C02', 'C03', 'C04', 'C05', 'C06', 'C07', 'C08', 'C09', 'C10', 'C11', 'C12', 'C13', 'C14', 'C16', 'C17', 'C20'],
+         serves_properties=['C01', 'C02', 'C03', 'C04', 'C05', 'C06', 'C07', 'C08', 'C09', 'C10', 'C11', 'C12', 'C13', 'C14', 'C15', 'C16', 'C17', 'C19', 'C20'],
          kind_free_text='symbolic execution of the real emsarray functions on numpy/xarray object arrays of z3-backed '
                         'scalars; fork-by-re-execution path explorer; every path closed by z3 verdict queries and a '
                         'concrete replay of a model on the unmodified stack'),
@@ -212,6 +212,28 @@ CHECKS = {
         design_ref='DESIGN.md section 4, C09',
         note='Geometry coordinates are concrete here (symbolic coordinates are C02/C06); reopening saved results happens in '
              'replay on real files only.',
+    ),
+    'C15': dict(
+        engine='symx',
+        technique='symbolic execution of the real exporters on the symbolic polygon array (z3 reals, forked hole pattern) with recording serializers; z3 decides index and coordinate identity per feature',
+        text='For every hole pattern and all coordinates z3 shows that what reaches each serializer (GeoJSON features, '
+             'Shapefile records+shapes, the WKT/WKB MultiPolygon) is exactly the cells with polygons, in linear order, with '
+             'identical coordinate terms, and that linear_index / index (JSON-encoded for Shapefile) identify that cell '
+             '(ravel_index(index) == linear_index). Every path is replayed by writing and re-reading real files.',
+        design_ref='DESIGN.md section 4, C15',
+        note="The serializers' own encodings are validated on witnesses only. Known finding: the geojson package rounds "
+             'coordinates to 6 decimals. One genuine defect (null Shapefile linear index) repaired in /repo.',
+    ),
+    'C19': dict(
+        engine='symx',
+        technique='symbolic execution of the real make_poly_collection / make_quiver on z3-backed values and coordinates with recording matplotlib constructors; z3 decides pairing and colour-limit postconditions',
+        text='For every hole pattern, all values (NaN included) and coordinates: one patch per cell with geometry in linear '
+             'order with that cell ring and value; default clim contains every plotted value and both limits are plotted '
+             'values; user array/clim/transform pass through; data_array+array => TypeError; leftover dimensions => '
+             'ValueError; quiver x,y are the face centres and u,v the components of the same cell. Replay builds real '
+             'matplotlib artists.',
+        design_ref='DESIGN.md section 4, C19',
+        note='Rendering and animate_on_figure are outside; datasets without any cell geometry are excluded.',
     ),
 }
 
